@@ -7,6 +7,8 @@ checks, claimed = [], set()
 for p in sorted(glob.glob(os.path.join(ROOT, "props", "C*.json"))):
     c = json.load(open(p))
     pid = c["id"]
+    if c.get("claimed") is False:
+        continue
     claimed.add(pid)
     checks.append({
         "property_id": pid,
